@@ -291,9 +291,12 @@ class Melody(events_lib.SimpleEventSequence):
         quantized_sequence.quantization_info.steps_per_quarter)
 
     # Sort track by note start times, and secondarily by pitch descending.
+    # Drum notes (if filtered) and zero-velocity notes are not melody notes and
+    # must not determine the bar the melody starts in.
     notes = sorted([n for n in quantized_sequence.notes
                     if n.instrument == instrument and
-                    n.quantized_start_step >= search_start_step],
+                    n.quantized_start_step >= search_start_step and
+                    not (filter_drums and n.is_drum) and n.velocity],
                    key=lambda note: (note.quantized_start_step, -note.pitch))
 
     if not notes:
